@@ -69,4 +69,12 @@ def i2b (a : JInt) : JByte := a.setWidth 8
 def i2s (a : JInt) : JShort := a.setWidth 16
 def i2c (a : JInt) : JChar := a.setWidth 16
 
+/-! ## what the compiler's own C code computes when it prints a big-integer constant -/
+/-- `bigint.c:bintLength`: number of bits of the magnitude (`intLength` / place count) -/
+def bintLength (v : Int) : Nat := if v = 0 then 0 else v.natAbs.log2 + 1
+/-- `strPrintf("%d", x)` with a `long` argument: `%d` reads an `int`, i.e. the low 32 bits, signed -/
+def fmtD (v : Int) : Int := (BitVec.ofInt 32 v).toInt
+/-- `strPrintf("%ld", x)`: the `long` itself -/
+def fmtLD (v : Int) : Int := (BitVec.ofInt 64 v).toInt
+
 end AldorVerif.JSem
